@@ -91,6 +91,66 @@ def _gen_pattern(rng: random.Random, rich: bool = True) -> dict:
     return p
 
 
+def gen_diamond_pattern(rng: random.Random, rich: bool = True, effect_only: bool = False) -> dict:
+    """a multi-result producer (2–3 results) reached through several DISTINCT `pdl.result i of %prod` ops:
+    depth 1 = the root consumes two or three different results of the producer; depth 2 = some of the results reach
+    the root through intermediate ops (one or two of them), possibly next to a direct use"""
+    global _NAMES
+    _NAMES = EFFECT_NAMES if effect_only else OP_NAMES
+    try:
+        nres = _w(rng, [2, 3], [65, 35])
+        shared_type = rng.random() < 0.6
+        ntypes = 1 if shared_type else nres
+        types: list = [(rng.choice(TYPES) if rng.random() < 0.25 else None) for _ in range(ntypes)]
+        types.append(None)                                  # result type of the consumers
+        tcons = len(types) - 1
+        attrs: list = []
+        prod_attrs: list = []
+        if rng.random() < 0.5:
+            attrs.append({"v": rng.choice(['"pair"', "0 : i32", "false", "1 : i64"]), "t": None})
+            prod_attrs = [[rng.choice(ATTR_NAMES), 0]]
+        vals: list = [None] * rng.randint(0, 2)
+        prod = {"name": rng.choice(_NAMES) if rng.random() < 0.9 else None, "attrs": prod_attrs,
+                "operands": [["v", rng.randrange(len(vals))] for _ in range(rng.randint(0, min(2, len(vals))))] if vals else [],
+                "results": [(0 if shared_type else k) for k in range(nres)]}
+        ops = [prod]
+        used_idx = rng.sample(range(nres), k=_w(rng, [2, 3], [75, 25]) if nres == 3 else 2)
+        depth = _w(rng, [1, 2], [55, 45])
+        root_operands: list = []
+        if depth == 1:
+            root_operands = [["r", 0, k] for k in used_idx]
+        else:
+            # each used result goes either directly to the root or through its own / a shared intermediate op
+            mids: list[int] = []
+            for n, k in enumerate(used_idx):
+                via_mid = rng.random() < 0.6 or (n == len(used_idx) - 1 and not mids)
+                if not via_mid:
+                    root_operands.append(["r", 0, k])
+                    continue
+                if mids and rng.random() < 0.3:
+                    ops[mids[-1]]["operands"].append(["r", 0, k])         # one intermediate op takes two results
+                    continue
+                mid = {"name": rng.choice(_NAMES), "attrs": [], "operands": [["r", 0, k]], "results": [tcons]}
+                if vals and rng.random() < 0.4:
+                    mid["operands"].insert(rng.randint(0, 1), ["v", rng.randrange(len(vals))])
+                ops.append(mid)
+                mids.append(len(ops) - 1)
+                root_operands.append(["r", len(ops) - 1, 0])
+        if vals and rng.random() < 0.4:
+            root_operands.insert(rng.randint(0, len(root_operands)), ["v", rng.randrange(len(vals))])
+        if rng.random() < 0.3:
+            rng.shuffle(root_operands)
+        root = {"name": rng.choice(_NAMES) if rng.random() < 0.9 else None, "attrs": [], "operands": root_operands,
+                "results": [tcons] if rng.random() < 0.8 else []}
+        ops.append(root)
+        p = {"types": types, "attrs": attrs, "vals": vals, "ops": ops, "rw": [],
+             "layout": rng.choice(["grouped", "lazy"]), "mres": rng.choice(["match", "rewrite"]), "diamond": True}
+        p["rw"] = gen_rewrite(rng, p, rich)
+        return p
+    finally:
+        _NAMES = OP_NAMES
+
+
 def _bound_nodes(p: dict) -> tuple[list[int], list[int], list[int]]:
     """indices of operand / attribute / type nodes reachable from the root (bound by every match)"""
     vs: set[int] = set()
@@ -273,7 +333,7 @@ class Builder:
             where[i] = len(self.ops) - 1
         return where[len(p["ops"]) - 1]
 
-    def mutate(self, lo: int) -> str:
+    def mutate(self, lo: int, only: str | None = None) -> str:
         """one near-miss mutation of an op at position ≥ lo; returns its kind"""
         rng = self.rng
         if lo >= len(self.ops):
@@ -282,8 +342,40 @@ class Builder:
         o = self.ops[i]
         used = any(r[0] == "r" and r[1] == i for x in self.ops for r in x["operands"])
         kinds = ["attr-value", "attr-drop", "attr-to-prop", "operand-drop", "operand-add", "operand-other-def",
-                 "operand-same", "operand-other-result", "type", "name", "result-add", "operand-arg", "attr-type"]
-        k = rng.choice(kinds)
+                 "operand-same", "operand-other-result", "type", "name", "result-add", "operand-arg", "attr-type",
+                 "operand-twin-producer", "operand-swap-index"]
+        k = only if only is not None else rng.choice(kinds)
+        if k == "operand-twin-producer":
+            # the same result index, but of a second producer op with the same name / attributes / operands
+            cands = [(a, j) for a in range(lo, len(self.ops)) for j, r in enumerate(self.ops[a]["operands"]) if r[0] == "r"]
+            if not cands:
+                return "none"
+            a, j = rng.choice(cands)
+            d, idx = self.ops[a]["operands"][j][1], self.ops[a]["operands"][j][2]
+            twin = copy.deepcopy(self.ops[d])
+            if rng.random() < 0.3 and (twin["attrs"] or twin["props"]):
+                rng.choice([x for x in (twin["attrs"], twin["props"]) if x])[0][1] = rng.choice(ALL_ATTRS)
+            self.insert_at(d + 1, twin)
+            self.ops[a + 1]["operands"][j] = ["r", d + 1, idx]
+            return k
+        if k == "operand-swap-index":
+            # two operands that are different results of one producer exchange their result indices
+            for a in rng.sample(range(lo, len(self.ops)), len(self.ops) - lo):
+                rs = [(j, r) for j, r in enumerate(self.ops[a]["operands"]) if r[0] == "r"]
+                pairs = [(x, y) for x in rs for y in rs if x[0] < y[0] and x[1][1] == y[1][1] and x[1][2] != y[1][2]]
+                if pairs:
+                    (j1, r1), (j2, r2) = rng.choice(pairs)
+                    r1[2], r2[2] = r2[2], r1[2]
+                    return k
+            # otherwise: one operand takes another result index of its producer (which has several results)
+            cands = [(a, j) for a in range(lo, len(self.ops)) for j, r in enumerate(self.ops[a]["operands"])
+                     if r[0] == "r" and len(self.ops[r[1]]["results"]) > 1]
+            if not cands:
+                return "none"
+            a, j = rng.choice(cands)
+            r = self.ops[a]["operands"][j]
+            r[2] = (r[2] + 1) % len(self.ops[r[1]]["results"])
+            return k
         if k == "attr-value" and (o["attrs"] or o["props"]):
             l = rng.choice([x for x in (o["attrs"], o["props"]) if x])
             e = rng.choice(l)
@@ -372,9 +464,12 @@ def _gen_payload(rng: random.Random, p: dict) -> tuple[dict, list[str]]:
     muts: list[str] = []
     for inst in range(_w(rng, [1, 2, 3], [50, 35, 15])):
         lo = len(b.ops)
-        perfect = rng.random() < 0.45
+        perfect = rng.random() < (0.35 if p.get("diamond") else 0.45)
         b.instantiate(p, perfect)
-        if not perfect:
+        if not perfect and p.get("diamond") and rng.random() < 0.75:
+            # the decisive near-misses of a diamond: results of two different producers / swapped result indices
+            muts.append(b.mutate(lo, rng.choice(["operand-twin-producer", "operand-twin-producer", "operand-swap-index"])))
+        elif not perfect:
             for _ in range(_w(rng, [1, 2], [75, 25])):
                 muts.append(b.mutate(lo))
         if rng.random() < 0.7:
